@@ -145,6 +145,13 @@ def step (_ : Unit) (ts : List String) : Unit × String :=
           if k.2 then "lens=0 closed=1"                      -- refused: closed, nothing of the message is delivered
           else s!"lens={nfrag * len} closed=1"
       | _, _ => "bad-op"
+    -- client handshake: connect() against a raw peer answering these bytes
+    | ["chs", st, path, resp] => match unhex st, unhex path, unhex resp with
+      | some s, some pa, some rs =>
+        if pa.head? != some 47 then "bad-op" else
+        let r := clientConnect (rngOf s) pa [49, 50, 55, 46, 48, 46, 48, 46, 49] [80, 79, 82, 84] rs
+        s!"connect={if r.2 then 1 else 0} req={hex r.1}"
+      | _, _, _ => "bad-op"
     | _ => "bad-op"
   ((), r)
 
